@@ -69,6 +69,21 @@ def _acc(name):
             return a
         return (sup, lambda o: float(o.get_resonance_coupling(0, 1)),
                 lambda o: float(o.resonance_coupling[0, 1]))
+    if name == "aggregate_transition":
+        # get_transition(Nf, Ni) between two EXCITED states (both energies non-zero): site 1 at
+        # v (in the supplying units), site 2 at twice that energy -> the transition 1->2 has
+        # the energy v; an energy difference is converted as a difference, not term by term
+        def sup(v):
+            m1 = qr.Molecule(elenergies=[0.0, v])
+            with qr.energy_units("int"):
+                m2 = qr.Molecule(elenergies=[0.0, 2.0 * float(m1.elenergies[1])])
+                for m in (m1, m2):
+                    m.set_dipole(0, 1, [1.0, 0.0, 0.0])
+            a = qr.Aggregate(molecules=[m1, m2])
+            a.build()
+            return a
+        return (sup, lambda o: float(o.get_transition(2, 1)[0]),
+                lambda o: float(o.HH[2, 2] - o.HH[1, 1]))
     if name == "aggregate_coupling_matrix":
         def sup(v):
             with qr.energy_units("int"):
@@ -137,7 +152,8 @@ def _acc(name):
 ACCESSORS = ["hamiltonian", "molecule_init", "molecule_set", "mode_init", "mode_set", "submode",
              "aggregate_coupling", "aggregate_coupling_matrix", "frequency_axis_start",
              "frequency_axis_step", "frequency_axis_data", "corfce_reorg", "spectdens_reorg",
-             "hamiltonian_rwa", "molecule_rwa", "hamiltonian_cutoff_remove"]
+             "hamiltonian_rwa", "molecule_rwa", "hamiltonian_cutoff_remove",
+             "aggregate_transition"]
 POSITIVE_ONLY = {"hamiltonian_cutoff_remove", "corfce_reorg", "spectdens_reorg", "mode_init", "mode_set", "submode", "molecule_rwa",
                  "frequency_axis_step"}
 
@@ -410,6 +426,7 @@ class UWorld:
         self.viol = []
         self.prepared = None
         self.init = _units_state()
+        self.base0 = dict(self.init["units"])     # the units the prerequisites are built in
 
     def v(self, key, what, det=None):
         if key not in [x[0] for x in self.viol]:
@@ -439,6 +456,13 @@ class UWorld:
                    % (after, got["in_ctx"], got["count"], exp["in_ctx"], exp["count"]))
             return False
         return True
+
+    def setglobal(self, units):
+        """The USER selects non-internal units outside any context (a configuration choice):
+        they are the bottom of the stack from now on."""
+        _mgr().set_current_units("energy", units)
+        self.init["units"]["energy"] = units
+        self.check("set-global-units")
 
     def enter(self, typ, units):
         cm = self.qr.energy_units(units) if typ == "energy" else self.qr.length_units(units)
@@ -497,7 +521,7 @@ class UWorld:
         saved = _units_state()
         m = _mgr()
         pre_stack_units = dict(m.current_units)
-        m.current_units = dict(self.init["units"])
+        m.current_units = dict(self.base0)
         c, fl = m._in_eu_count, m._in_energy_units_context
         m._in_eu_count, m._in_energy_units_context = 0, False
         try:
@@ -524,6 +548,7 @@ class UWorld:
         if got != self.init:
             self.v("units-not-restored-after-outermost-exit",
                    "after leaving all contexts: %r, initially %r" % (got, self.init))
+        _mgr().current_units = dict(self.base0)       # harness: next history starts clean
 
 
 CFG = {"quick": {"nest": 2, "calls": None, "depth": 3, "nexc": 1},
@@ -550,6 +575,8 @@ def execute(hist):
         en.append(["enter", "length", "nm"])
         if w.prepared is not None:
             en.append(["enter_prepared"])
+    if depth == 0 and w.prepared is None and not any(op[0] == "setglobal" for op in hist):
+        en.append(["setglobal", "1/cm"])
     if w.prepared is None and not any(op[0] == "prepare" for op in hist):
         en.append(["prepare", "energy", "THz"])
         if execute.tier == "thorough":
